@@ -54,12 +54,19 @@ protected:
 class TMiddleware : public Middleware
 {
 public:
-    int id; bool ok; QStringList *obs;
+    int id; bool ok; QStringList *obs; bool soft = false;
     TMiddleware(int i, bool o, QStringList *l) : id(i), ok(o), obs(l) {}
     bool process(Socket *socket) override
     {
         obs->append(QString("mw:%1:%2").arg(id).arg(ok ? 1 : 0));
-        if (!ok) {
+        if (!ok && soft) {
+            // writes its own complete response and leaves the connection open
+            socket->setHeader("X-Mw", QByteArray::number(id));
+            socket->setHeader("Content-Length", "6");
+            socket->setStatusCode(Socket::Forbidden);
+            socket->writeHeaders();
+            socket->write("denied");
+        } else if (!ok) {
             socket->setHeader("X-Mw", QByteArray::number(id));
             socket->writeError(Socket::Forbidden);
         }
@@ -77,7 +84,8 @@ void runRoute(const Scn &scn, Out &out)
     QList<QObject *> owned;
     THandler *root = nullptr;
     QByteArray raw;
-    bool noroot = false, late = false, unsetlate = false;
+    bool noroot = false, late = false, unsetlate = false, soft = false;
+    foreach (const QString &t, scn.toks) if (t == "soft") soft = true;
     foreach (const QString &t, scn.toks) {
         QStringList p = t.split(':');
         if (p[0] == "pat") pats[p[1].toInt()] = QRegExp(un16(p[2]));
@@ -88,7 +96,7 @@ void runRoute(const Scn &scn, Out &out)
             if (p[2] == "-1") root = h; else nodes[p[2].toInt()]->addSubHandler(pats[p[3].toInt()], h);
         }
         else if (p[0] == "redir") nodes[p[1].toInt()]->addRedirect(pats[p[2].toInt()], un16(p[3]));
-        else if (p[0] == "mw") { TMiddleware *m = new TMiddleware(p[2].toInt(), p[3] == "1", obs); owned << m; nodes[p[1].toInt()]->addMiddleware(m); }
+        else if (p[0] == "mw") { TMiddleware *m = new TMiddleware(p[2].toInt(), p[3] == "1", obs); m->soft = soft; owned << m; nodes[p[1].toInt()]->addMiddleware(m); }
         else if (p[0] == "req") raw = unhx(p[1]);
         else if (p[0] == "noroot") noroot = true;
         else if (p[0] == "late") late = true;
